@@ -277,6 +277,12 @@ class LoopsMixin:
             if isinstance(val, VTuple) or srt is Dyn and not isinstance(val, VDyn):
                 val = VDyn(box(val))
                 srt = Dyn
+            if isinstance(it, VSeq) and same_sort(srt, it.elem) and \
+                    z3.simplify(term_of(val)).eq(z3.simplify(it.t[i])) and len(normals) == 1:
+                # identity map over a sequence: the same sequence (a fresh list object with equal elements)
+                res = VSeq(it.t, srt, consumer)
+                yield p, (ex.new_cell(p, res) if consumer == "list" else res)
+                return
             r = V.fresh("comp", z3.SeqSort(srt.z))
             p.assume(z3.Length(r) == n)
             p.assume(z3.ForAll([i], z3.Implies(rng, r[i] == term_of(val))))
